@@ -25,6 +25,9 @@ const modPath = "github.com/tmpim/casket"
 var (
 	repoDir  = envOr("VERIF_REPO", "/repo")
 	verifDir = envOr("VERIF_DIR", "/verif")
+	// outDir receives evidence/ and out/ (overridden by the mutant self-test so that it never touches real evidence)
+	outDir    = envOr("VERIF_OUT", verifDir)
+	procStart = time.Now()
 )
 
 func envOr(k, d string) string {
@@ -268,7 +271,7 @@ type Report struct {
 }
 
 func NewReport(prop, tier string, prog *Program) *Report {
-	return &Report{Prop: prop, Tier: tier, Start: time.Now(), Prog: prog, Extra: map[string]interface{}{}}
+	return &Report{Prop: prop, Tier: tier, Start: procStart, Prog: prog, Extra: map[string]interface{}{}}
 }
 
 func (r *Report) Rule(id, text string, min int) {
@@ -427,19 +430,19 @@ func (r *Report) Finish() int {
 		}
 	}
 
-	outDir := filepath.Join(verifDir, "out", "violations")
-	os.MkdirAll(outDir, 0o755)
-	os.MkdirAll(filepath.Join(verifDir, "evidence"), 0o755)
+	vdir := filepath.Join(outDir, "out", "violations")
+	os.MkdirAll(vdir, 0o755)
+	os.MkdirAll(filepath.Join(outDir, "evidence"), 0o755)
 	nviol := 0
 	for i, o := range viol {
-		path := filepath.Join(outDir, fmt.Sprintf("%s-%s-%d.json", r.Prop, r.Tier, i+1))
+		path := filepath.Join(vdir, fmt.Sprintf("%s-%s-%d.json", r.Prop, r.Tier, i+1))
 		b, _ := json.MarshalIndent(map[string]interface{}{"property": r.Prop, "violation": o, "rule_text": r.ruleText(o.Rule), "tier": r.Tier}, "", " ")
 		os.WriteFile(path, b, 0o644)
 		fmt.Printf("VIOLATION property=%s replay=%s rule=%s construct=%s at %s: %s\n", r.Prop, path, o.Rule, o.Construct, o.Pos, o.What)
 		nviol++
 	}
 	for i, u := range r.Unresolved {
-		path := filepath.Join(outDir, fmt.Sprintf("%s-%s-unresolved-%d.json", r.Prop, r.Tier, i+1))
+		path := filepath.Join(vdir, fmt.Sprintf("%s-%s-unresolved-%d.json", r.Prop, r.Tier, i+1))
 		b, _ := json.MarshalIndent(map[string]interface{}{"property": r.Prop, "unresolved_anchor": u, "tier": r.Tier}, "", " ")
 		os.WriteFile(path, b, 0o644)
 		fmt.Printf("VIOLATION property=%s replay=%s UNRESOLVED-ANCHOR %s\n", r.Prop, path, u)
@@ -506,7 +509,7 @@ func (r *Report) Finish() int {
 		Assumptions: append([]string{"source analysed is /repo's working tree at run time (GOOS/GOARCH as listed in platforms)", "Go type checker and x/tools SSA construction are correct", "nothing is random; seed recorded as given"}, r.Assumptions...),
 		WallS:       time.Since(r.Start).Seconds(), Violations: nviol}
 	b, _ := json.MarshalIndent(ev, "", " ")
-	if err := os.WriteFile(filepath.Join(verifDir, "evidence", r.Prop+".json"), b, 0o644); err != nil {
+	if err := os.WriteFile(filepath.Join(outDir, "evidence", r.Prop+".json"), b, 0o644); err != nil {
 		fmt.Printf("VIOLATION property=%s replay=- cannot write evidence: %v\n", r.Prop, err)
 		return 1
 	}
